@@ -86,6 +86,24 @@ var c16PRF = probe.Define("C16", "prf-prime", func(t *rapid.T) c16In {
 			return probe.Fail("%s (%d octets) differs from octets %d..%d of PRF'(IK'|CK', \"EAP-AKA'\"|Identity)", x.name, len(x.got), x.from, x.to-1)
 		}
 	}
+	// The very next derivation with arguments that CONCATENATE to the same octets but split them differently between key and
+	// string - K' = IK'|CK'|"EAP-AKA'"|A and S' = "EAP-AKA'"|B for an identity A|"EAP-AKA'"|B - is a different derivation.
+	if j := bytes.Index(in.Identity, []byte("EAP-AKA'")); j >= 0 && len(in.CK)+8+j <= 64 {
+		ck2 := append(append(append([]byte(nil), in.CK...), "EAP-AKA'"...), in.Identity[:j]...)
+		id2 := in.Identity[j+8:]
+		var g [5][]byte
+		if err := probe.Try(func() error {
+			var e error
+			g[0], g[1], g[2], g[3], g[4], e = eap.EapAkaPrimePRF(append([]byte(nil), in.IK...), ck2, string(id2))
+			return e
+		}); err != nil {
+			return probe.Fail("EapAkaPrimePRF on the re-split arguments: %v", err)
+		}
+		mk2 := ref.PRFPrime(append(append([]byte(nil), in.IK...), ck2...), append([]byte("EAP-AKA'"), id2...), 208)
+		if !bytes.Equal(g[0], mk2[0:16]) || !bytes.Equal(g[1], mk2[16:48]) || !bytes.Equal(g[2], mk2[48:80]) || !bytes.Equal(g[3], mk2[80:144]) || !bytes.Equal(g[4], mk2[144:208]) {
+			return probe.Fail("a derivation whose key and string concatenate to the same octets as the previous one (split differently) does not give PRF' of ITS key and string")
+		}
+	}
 	// keys handed out stay what they are when further derivations are made (no shared buffer behind them)
 	if err := probe.Try(func() error {
 		for i := 0; i < 3; i++ {
